@@ -7,6 +7,10 @@ package main
 //                  every deadline is still in the future); time.Now() is monotone symbolic.
 //   "free":        at any scheduling point the environment may fire an armed
 //                  timer; firing advances the clock to at least its deadline.
+//   "punctual":    discrete-event time: computation takes no time, a timer fires only when
+//                  every thread is blocked, the armed timer with the earliest deadline fires
+//                  first and the clock then reads exactly max(now, deadline).  Used where the
+//                  property is about *when* something happens relative to a threshold.
 
 import (
 	"go/types"
@@ -24,13 +28,15 @@ type timerObj struct {
 	hasFn    bool
 	obj      *Object
 	fired    int
+	period   *Term
+	never    bool // beyond the scenario's horizon: never fires (vrtBeyondHorizon)
 }
 
 func (st *State) newTimerObject(fn *ssa.Function, d *Term, periodic bool) (Ptr, *timerObj) {
 	pt := fn.Signature.Results().At(0).Type().(*types.Pointer)
 	o := st.newObject(st.zero(pt.Elem()), pt.Elem(), "timer")
 	ch := st.newChan(1, nil)
-	t := &timerObj{id: len(st.timers), ch: ch, deadline: st.tt.Bin(OpAdd, st.clockNow(), d), armed: true, periodic: periodic, obj: o}
+	t := &timerObj{id: len(st.timers), ch: ch, deadline: st.tt.Bin(OpAdd, st.clockNow(), d), armed: true, periodic: periodic, obj: o, period: d}
 	ch.timer = t
 	st.timers = append(st.timers, t)
 	p := Ptr{Obj: o}
@@ -105,37 +111,64 @@ func init() {
 
 // armedTimers returns the timers that may fire now.
 func (st *State) armedTimers() []*timerObj {
-	if st.eng.cfg.TimeMode != "free" || st.timersFrozen {
+	if (st.eng.cfg.TimeMode != "free" && st.eng.cfg.TimeMode != "punctual") || st.timersFrozen {
 		return nil
 	}
 	var out []*timerObj
 	for _, t := range st.timers {
-		if t.armed && (t.hasFn || len(t.ch.buf) < t.ch.cap) && t.fired < st.eng.cfg.MaxTimerFires {
+		if t.armed && !t.never && (t.hasFn || len(t.ch.buf) < t.ch.cap) && t.fired < st.eng.cfg.MaxTimerFires {
 			out = append(out, t)
 		}
 	}
 	return out
 }
 
+// preemptTimers: the timers that may fire while threads can still run.
+func (st *State) preemptTimers() []*timerObj {
+	if st.eng.cfg.TimeMode == "punctual" {
+		return nil
+	}
+	return st.armedTimers()
+}
+
 // fire delivers timer t: the clock moves to an instant >= its deadline.
 func (st *State) fire(t *timerObj) {
 	tt := st.tt
-	n := st.freshInternal("now", 64)
 	st.clockNow()
-	st.assume(tt.Cmp(OpSLe, st.now, n))
-	st.assume(tt.Cmp(OpSLe, t.deadline, n))
-	st.assume(tt.Cmp(OpSLt, n, tt.Const(1<<62, 64)))
-	st.now = n
+	if st.eng.cfg.TimeMode == "punctual" {
+		// t is the earliest armed timer, and it fires on time
+		c := tt.True
+		for _, u := range st.armedTimers() {
+			if u != t {
+				c = tt.And(c, tt.Cmp(OpSLe, t.deadline, u.deadline))
+			}
+		}
+		if !c.IsTrue() {
+			if r, _ := st.w.solver.Check(st.pc, c, false, "feas"); r == Unsat {
+				panic(pathAbort{kind: "INFEASIBLE", msg: "timer is not the earliest"})
+			}
+			st.assume(c)
+		}
+		st.now = tt.Ite(tt.Cmp(OpSLe, t.deadline, st.now), st.now, t.deadline)
+	} else {
+		n := st.freshInternal("now", 64)
+		st.assume(tt.Cmp(OpSLe, st.now, n))
+		st.assume(tt.Cmp(OpSLe, t.deadline, n))
+		st.assume(tt.Cmp(OpSLt, n, tt.Const(1<<62, 64)))
+		st.now = n
+	}
 	t.fired++
 	if !t.periodic {
 		t.armed = false
+	} else if st.eng.cfg.TimeMode == "punctual" && t.period != nil {
+		t.deadline = tt.Bin(OpAdd, t.deadline, t.period)
 	}
 	if t.hasFn {
 		th := st.newThread(t.fn, nil, "AfterFunc")
 		th.vc = nil
 		return
 	}
-	t.ch.buf = append(t.ch.buf, st.mkTime(n))
+	t.ch.buf = append(t.ch.buf, st.mkTime(st.now))
 	t.ch.sendVC = append(t.ch.sendVC, nil)
 }
 
